@@ -393,6 +393,10 @@ class Model:
             if e['fn'] == 'isNegativeNumber':
                 return v.typ == 'CN' and v.neg
             return self.P.call(e['fn'], v.typ)
+        if k == 'Ref' and e.get('dk') == 'local' and (e.get('t') or '').replace('const ', '') == 'bool':
+            inits = [v['c'][0] for v in f.walk() if v.get('k') == 'Var' and v.get('d') == e.get('d') and v.get('c')]
+            if len(inits) == 1:
+                return self._cond(f, inits[0], env)
         t = render(e)
         for var, cl in env.items():
             if t == '%s->rightChild() != nullptr' % var:
